@@ -261,11 +261,19 @@ func checkItemDAG(stream uint64) (out []viol, shape string) {
 		return append(out, *p), shape
 	}
 	within := cnt <= stackitem.MaxSerialized && size <= stackitem.MaxSize
+	// one signature per limit whose accounting disagrees with the tree
+	limSig := "limits:item.dag:serialize-element-accounting"
+	if cnt <= stackitem.MaxSerialized {
+		limSig = "limits:item.dag:serialize-size-accounting"
+	}
+	limitsOK := true
 	switch {
 	case err == nil && !within:
-		fail("limits:item.dag:serialize-accepts-beyond-limit", fmt.Sprintf("Serialize accepted an item with shared compounds whose tree has %d elements / %d bytes (limits %d / %d)", cnt, size, stackitem.MaxSerialized, stackitem.MaxSize), b)
+		limitsOK = false
+		fail(limSig, fmt.Sprintf("Serialize accepted an item with shared compounds whose tree has %d elements / %d bytes (limits %d / %d); Deserialize of these bytes: %v", cnt, size, stackitem.MaxSerialized, stackitem.MaxSize, func() error { _, e := stackitem.Deserialize(b); return e }()), b)
 	case err != nil && within:
-		fail("limits:item.dag:serialize-rejects-within-limit", fmt.Sprintf("Serialize rejected (%v) an item with shared compounds whose tree has %d elements / %d bytes (limits %d / %d)", err, cnt, size, stackitem.MaxSerialized, stackitem.MaxSize), nil)
+		limitsOK = false
+		fail(limSig, fmt.Sprintf("Serialize rejected (%v) an item with shared compounds whose tree has %d elements / %d bytes (limits %d / %d)", err, cnt, size, stackitem.MaxSerialized, stackitem.MaxSize), nil)
 	}
 	if err == nil {
 		if len(b) != size {
@@ -276,7 +284,9 @@ func checkItemDAG(stream uint64) (out []viol, shape string) {
 		if p := guard(dagCodec, "Deserialize", b, func() { back, derr = stackitem.Deserialize(b) }); p != nil {
 			return append(out, *p), shape
 		}
-		if derr != nil {
+		if derr != nil && !limitsOK {
+			// already reported as a limit disagreement
+		} else if derr != nil {
 			fail("roundtrip:item.dag:decode-error", fmt.Sprintf("Serialize produced %d bytes for an item with shared compounds (tree: %d elements) that Deserialize rejects: %v", len(b), cnt, derr), b)
 		} else if d := itemDiff("", it, back, 0); d != "" {
 			fail("roundtrip:item.dag:value", "Deserialize(Serialize(x)) differs from x (as a tree) at "+d, b)
@@ -290,11 +300,11 @@ func checkItemDAG(stream uint64) (out []viol, shape string) {
 		}
 	}
 	// explicit limits around the true count, both directions
-	if size <= stackitem.MaxSize && cnt > 2 {
+	if size <= stackitem.MaxSize && cnt > 2 && limitsOK {
 		for _, l := range []int{cnt - 1, cnt, cnt + 1} {
 			lb, lerr := stackitem.SerializeLimited(it, l)
 			if (lerr == nil) != (cnt <= l) {
-				fail("limits:item.dag:serialize-limited", fmt.Sprintf("SerializeLimited(limit %d) on a tree of %d elements: err=%v", l, cnt, lerr), nil)
+				fail("limits:item.dag:serialize-element-accounting", fmt.Sprintf("SerializeLimited(limit %d) on a tree of %d elements: err=%v", l, cnt, lerr), nil)
 				break
 			}
 			if err == nil {
